@@ -2,7 +2,7 @@
    ONLY statements: each theorem is closed by `exact` of a lemma proved elsewhere and followed by Print Assumptions. *)
 From Coq Require Import ZArith NArith List Bool Lia Permutation.
 Import ListNotations.
-Require Import Base Strings Builtins Codec Interp Machine Spec RunG Bits.
+Require Import Base Strings Builtins Codec Interp Machine Spec RunG Bits Utf.
 Open Scope Z_scope.
 Theorem le_roundtrip  :
   forall w n, 0 <= n < P w -> le_value (le_bytes w n) = n.
@@ -59,4 +59,20 @@ Theorem codec_body_decodes (rec : list positive -> heap -> world -> task -> out)
   DoneG h wd (inl (VInt (dec (scheme =? 2) (match big with Some true => true | _ => false end) bs))) 0.
 Proof. exact (Bits.codec_body_decodes rec scheme w big sp bs ip h wd). Qed.
 Print Assumptions codec_body_decodes.
+
+(* UTF-8 as defined by RFC 3629 (encoder + STRICT decoder written independently of any codec): decoding the encoding of any string of scalar values gives the string back *)
+Theorem utf8_roundtrip  :
+  forall s, Forall scalar s -> utf8_decode (utf8_encode s) = Some s.
+Proof. exact (Utf.utf8_roundtrip ). Qed.
+Print Assumptions utf8_roundtrip.
+
+Theorem utf8_bytes c :
+  scalar c -> Forall (fun b => 0 <= b < 256) (enc1 c).
+Proof. exact (Utf.utf8_bytes c). Qed.
+Print Assumptions utf8_bytes.
+
+Theorem utf8_injective s t :
+  Forall scalar s -> Forall scalar t -> utf8_encode s = utf8_encode t -> s = t.
+Proof. exact (Utf.utf8_injective s t). Qed.
+Print Assumptions utf8_injective.
 
